@@ -301,6 +301,15 @@ def assign_ids(rng, n, regime=None):
     if regime == "dense":
         vals = list(range(n))
         return [id_code(v) for v in vals], "D", vals, n
+    if regime == "prefix":
+        # two-character codes whose first character is the code of another declared variable: a cut inside such a
+        # code leaves the name of a different variable (C15)
+        h = max(1, n // 2)
+        singles = list(range(h))
+        codes = {id_code(v) for v in singles}
+        cands = [v for v in range(94, 94 * 6) if id_code(v)[:1] in codes]
+        vals = singles + sorted(rng.sample(cands, n - h))
+        return [id_code(v) for v in vals], "D", vals, vals[-1] + 1
     if regime == "gaps":
         vals = sorted(rng.sample(range(0, 40 * n + 5), n))
         return [id_code(v) for v in vals], "D", vals, vals[-1] + 1
